@@ -2149,6 +2149,17 @@ func (c *RemoteClient) handleMessage(ctx context.Context, m *Message) error {
 		ctx = logger.ContextWithLogFields(ctx, logger.String("remote_message", messageName))
 	}
 
+	// Until the server has proven its identity with a valid accept only the accept itself, a
+	// rejection of the registration and pings are handled. Nothing else may reach the handlers.
+	if !c.accepted.Load().(bool) {
+		switch m.Payload.(type) {
+		case *AcceptRegister, *Reject, *Ping, *Pong:
+		default:
+			logger.Warn(ctx, "Ignoring message received before the connection was accepted")
+			return nil
+		}
+	}
+
 	// Handle message
 	switch msg := m.Payload.(type) {
 	case *AcceptRegister:
